@@ -236,7 +236,8 @@ def draw_arg(draw, kind, z):
         return draw(st.integers(0, 6))
     if kind == "offsets":
         # ragged offsets for `rows`-many rows over a data buffer of length 6
-        return draw(st.sampled_from(["ok", "ok", "decreasing", "too_long", "short", "nonzero_start", "overflow", "neg"]))
+        return draw(st.sampled_from(["ok", "ok", "decreasing", "too_long", "short", "nonzero_start", "overflow", "neg",
+                                     "wrap32", "wrap32_mid", "wrap32_last", "huge"]))
     raise KeyError(kind)
 
 
@@ -521,6 +522,14 @@ def _tables_calls():
         elif how == "neg":
             off = off.astype(np.int64)
             off[0] = -1
+        elif how == "wrap32" and rows >= 2:
+            off[1] = 2**32 + 1  # decreasing afterwards, but not in the low 32 bits
+        elif how == "wrap32_mid" and rows >= 2:
+            off[rows // 2 + (1 if rows // 2 == 0 else 0)] += 2**32
+        elif how == "wrap32_last" and rows >= 1:
+            off[-1] += 2**32
+        elif how == "huge" and rows >= 2:
+            off[1] = 2**63
         return np.frombuffer(data, dtype=np.int8), off
 
     def nodes_set(S, rows, how, append):
@@ -886,6 +895,48 @@ def boundary_points(tskit, ts, t):
         ("union(node_mapping=[-2..])", lambda: ts.union(ts, [-2] * n) if n else (_ for _ in ()).throw(ValueError("empty"))),
         ("nodes.truncate(n+1)", lambda: t.copy().nodes.truncate(n + 1)),
     ]
+    # huge identifiers that alias a valid id modulo 2^32 (or 2^64) must be rejected, not truncated
+    for H, hn in ((2**32, "2^32"), (-(2**32), "-2^32"), (2**64, "2^64"), (2**32 + 2**31, "2^32+2^31")):
+        tr = ts.first()
+        pts += [
+            (f"tree.parent({hn})", lambda H=H: tr.parent(H)),
+            (f"tree.left_child({hn})", lambda H=H: tr.left_child(H)),
+            (f"tree.right_sib({hn})", lambda H=H: tr.right_sib(H)),
+            (f"tree.num_samples({hn})", lambda H=H: tr.num_samples(H)),
+            (f"tree.num_tracked_samples({hn})", lambda H=H: tr.num_tracked_samples(H)),
+            (f"tree.time({hn})", lambda H=H: tr.time(H)),
+            (f"tree.depth({hn})", lambda H=H: tr.depth(H)),
+            (f"tree.branch_length({hn})", lambda H=H: tr.branch_length(H)),
+            (f"tree.is_sample({hn})", lambda H=H: tr.is_sample(H)),
+            (f"tree.children({hn})", lambda H=H: tr.children(H)),
+            (f"tree.edge({hn})", lambda H=H: tr.edge(H)),
+            (f"tree.mrca({hn},0)", lambda H=H: tr.mrca(H, 0)),
+            (f"tree.mrca(0,{hn})", lambda H=H: tr.mrca(0, H)),
+            (f"tree.is_descendant({hn},0)", lambda H=H: tr.is_descendant(H, 0)),
+            (f"tree.is_descendant(0,{hn})", lambda H=H: tr.is_descendant(0, H)),
+            (f"tree.preorder({hn})", lambda H=H: tr.preorder(H)),
+            (f"tree.samples({hn})", lambda H=H: list(tr.samples(H))),
+            (f"tree.as_newick(root={hn})", lambda H=H: tr.as_newick(root=H)),
+            (f"ts.node({hn})", lambda H=H: ts.node(H)),
+            (f"ts.edge({hn})", lambda H=H: ts.edge(H)),
+            (f"ts.site({hn})", lambda H=H: ts.site(H)),
+            (f"ts.mutation({hn})", lambda H=H: ts.mutation(H)),
+            (f"tables.nodes[{hn}]", lambda H=H: t.nodes[H]),
+            (f"tables.edges[{hn}]", lambda H=H: t.edges[H]),
+            (f"at_index({hn})", lambda H=H: ts.at_index(H)),
+            (f"seek_index({hn})", lambda H=H: tskit.Tree(ts).seek_index(H)),
+            (f"Variant.decode({hn})", lambda H=H: tskit.Variant(ts).decode(H)),
+            (f"ld.r2({hn},0)", lambda H=H: tskit.LdCalculator(ts).r2(H, 0)),
+            (f"ld.r2(0,{hn})", lambda H=H: tskit.LdCalculator(ts).r2(0, H)),
+            (f"ld.r2_array({hn})", lambda H=H: tskit.LdCalculator(ts).r2_array(H)),
+            (f"simplify([{hn}])", lambda H=H: ts.simplify([H])),
+            (f"subset([{hn}])", lambda H=H: ts.subset([H])),
+            (f"variants(samples=[{hn}])", lambda H=H: list(ts.variants(samples=[H]))),
+            (f"Tree(tracked_samples=[{hn}])", lambda H=H: tskit.Tree(ts, tracked_samples=[H])),
+            (f"diversity([[{hn}]])", lambda H=H: ts.diversity([[H]])),
+            (f"delete_sites([{hn}])", lambda H=H: ts.delete_sites([H])),
+            (f"ibd_segments(within=[{hn}])", lambda H=H: ts.ibd_segments(within=[H])),
+        ]
     return pts
 
 
@@ -1104,7 +1155,7 @@ SUBCHECKS = [
     SubCheck("C09.tables_programs", run_program, strategy=tables_program, quick=3200, thorough=300000, flavour="asan",
              rule="idem on arbitrary (possibly invalid / unsorted / unindexed) table collections"),
     SubCheck("C09.boundary_ids", run_boundary, strategy=boundary_case, quick=320, thorough=8000, flavour="asan",
-             rule="tree sequence with >=1 edge; every listed API point is called with id == row count"),
+             rule="tree sequence with >=1 edge; every listed API point is called with id == row count, a negative id, or a huge id that aliases a valid one modulo 2^32 / 2^64"),
     SubCheck("C09.big_sizes", run_big, enumerate=enum_big, quick=1, thorough=1, flavour="asan", shards=8, hang_s=900,
              rule="calls with 32767..70000 reference / sample sets; one table call that grows a table by 2.2 million rows, or a ragged column by 110 MB"),
 ]
